@@ -327,7 +327,8 @@ where
             }
             Decoded::Packet(Packet::PublishRelease(ack), size) => {
                 if self.inner.info.borrow().inflight.contains(&ack.packet_id) {
-                    self.inner.control(ProtocolMessage::pubrel(ack, size)).await
+                    let id = ack.packet_id.get();
+                    self.inner.control_pkt(ProtocolMessage::pubrel(ack, size), id).await
                 } else {
                     Ok(Some(Encoded::Packet(codec::Packet::PublishComplete(
                         codec::PublishAck2 {
